@@ -10,11 +10,12 @@ Proof. reflexivity. Qed.
 Lemma get_in_get_at g path hs hdr : get_in g path hs hdr = get_at (autohead g) (gp g) (gh g) path hs hdr.
 Proof. reflexivity. Qed.
 
-Lemma combo_in_at g path common : forall uses added,
+Lemma combo_in_at path common : forall uses g added,
   combo_in g path common added uses = combo_at (autohead g) (gp g) (gh g) path common added uses.
 Proof.
-  induction uses as [|[m hs] uses IH]; intros added; cbn; [reflexivity|].
-  destruct (existsb (str_eqb m) added); [reflexivity|]. rewrite IH. reflexivity.
+  induction uses as [|[m hs|b] uses IH]; intros g added; cbn [combo_in combo_at]; [reflexivity| |].
+  - destruct (existsb (str_eqb m) added); [reflexivity|]. rewrite IH. reflexivity.
+  - rewrite IH. reflexivity.
 Qed.
 
 (* what the code does to the state: only AutoHead survives a statement, the stack is restored *)
@@ -97,7 +98,7 @@ Proof.
     rewrite E. subst g1. cbn [autohead].
     destruct (seq_list _ (autohead g) body) as [[ah r]|]; cbn [lift]; [|reflexivity].
     cbn [autohead groups]. rewrite removelast_snoc. reflexivity.
-  - rewrite combo_in_at. destruct (combo_at _ _ _ _ _ _ _); destruct g; reflexivity.
+  - rewrite combo_in_at. destruct (combo_at _ _ _ _ _ _ _) as [[ah l]|]; reflexivity.
   - reflexivity.
 Qed.
 
